@@ -105,6 +105,17 @@ pub fn structured_mutants(payload: &[u8], marks: &[Mark], rng: &mut Rng, per_mar
                         }
                     }
                 }
+                // small inconsistencies between the first word (bit count / seconds) and the second (byte count)
+                for (word, deltas) in [(0usize, [1i64, -1, 7, 8, -8, 31, 32, 33, -32]), (8usize, [1i64, -1, 2, -2, 3, -3, 4, -4, 5])] {
+                    for d in deltas {
+                        let mut b = payload.to_vec();
+                        if off + word < b.len() {
+                            // low byte only: keeps flag bits in the top byte intact
+                            b[off + word] = (b[off + word] as i64).wrapping_add(d) as u8;
+                            cands.push((b, format!("special@{} word {} low byte {:+}", off, word / 8, d)));
+                        }
+                    }
+                }
                 // bit-vec: huge bit count with honest storage
                 let mut b = payload.to_vec();
                 put_u64(&mut b, off, 1000);
@@ -115,7 +126,9 @@ pub fn structured_mutants(payload: &[u8], marks: &[Mark], rng: &mut Rng, per_mar
             }
         }
         // keep a bounded random subset per mark
-        while cands.len() > per_mark {
+        // special payloads (time stamps, bit vectors) are rare subjects with many interesting mutants
+        let keep = if matches!(m.kind, MarkKind::Special) { per_mark * 6 } else { per_mark };
+        while cands.len() > keep {
             let i = rng.below(cands.len());
             cands.swap_remove(i);
         }
@@ -407,12 +420,12 @@ fn run_children(ctx: &mut Ctx, s: &Subject) {
     loop {
         let _ = std::fs::remove_file(&journal);
         let _ = std::fs::remove_file(&report);
-        // 6 GiB of address space: a declared absurd length fails to allocate instead of thrashing
+        // 2 GiB of address space: a declared absurd length fails to allocate instead of zero-filling gigabytes
         let cmd = format!(
             "{}exec \"{}\" C06 --seed {} --tier {} --out \"{}\" --build {}",
             // AddressSanitizer reserves terabytes of shadow address space: no address-space limit there
             // (its own max_allocation_size_mb / allocator_may_return_null options bound allocations)
-            if std::env::var("VH_SANITIZER").is_ok() { "" } else { "ulimit -v 6291456; " },
+            if std::env::var("VH_SANITIZER").is_ok() { "" } else { "ulimit -v 2097152; " },
             exe.display(),
             ctx.seed,
             if ctx.quick() { "quick" } else { "thorough" },
@@ -435,12 +448,27 @@ fn run_children(ctx: &mut Ctx, s: &Subject) {
             ctx.inconclusive("could not spawn child process");
             return;
         };
-        // logical progress watchdog: the journal must advance; a child stuck on one input for
-        // `limit` seconds is killed and that input is reported as a hang
-        let limit = std::time::Duration::from_secs(if ctx.quick() { 40 } else { 120 });
+        // progress watchdog: the journal must advance. The verdict is taken on the child's own CPU time
+        // (a logical measure that does not depend on machine load): a child that burns `limit` CPU seconds
+        // on one input is killed and that input is reported as non-terminating. Wall-clock time only bounds
+        // the run: exceeding it without having used the CPU budget is inconclusive, never a violation.
+        let limit = std::time::Duration::from_secs(if ctx.quick() { 120 } else { 300 });
+        let wall_limit = limit * 8;
+        let pid = childp.id();
+        let cpu_secs = |pid: u32| -> f64 {
+            // utime + stime (fields 14, 15 of /proc/<pid>/stat, after the parenthesised command name)
+            let Ok(t) = std::fs::read_to_string(format!("/proc/{}/stat", pid)) else { return 0.0 };
+            let Some(i) = t.rfind(')') else { return 0.0 };
+            let f: Vec<&str> = t[i + 1..].split_whitespace().collect();
+            let ut: f64 = f.get(11).and_then(|x| x.parse().ok()).unwrap_or(0.0);
+            let st: f64 = f.get(12).and_then(|x| x.parse().ok()).unwrap_or(0.0);
+            (ut + st) / 100.0
+        };
         let mut last_size = 0u64;
         let mut last_change = std::time::Instant::now();
+        let mut cpu_at_change = 0.0f64;
         let mut hung = false;
+        let mut stalled: Option<String> = None;
         let status = loop {
             match childp.try_wait() {
                 Ok(Some(st)) => break st,
@@ -454,13 +482,26 @@ fn run_children(ctx: &mut Ctx, s: &Subject) {
             if sz != last_size {
                 last_size = sz;
                 last_change = std::time::Instant::now();
-            } else if last_change.elapsed() > limit {
-                let _ = childp.kill();
-                hung = true;
-                break childp.wait().expect("wait after kill");
+                cpu_at_change = cpu_secs(pid);
+            } else {
+                let used = cpu_secs(pid) - cpu_at_change;
+                if used > limit.as_secs_f64() {
+                    let _ = childp.kill();
+                    hung = true;
+                    break childp.wait().expect("wait after kill");
+                }
+                if last_change.elapsed() > wall_limit {
+                    let _ = childp.kill();
+                    stalled = Some(format!("child for {} made no progress for {} s of wall time but used only {:.1} s of CPU on that input (machine load?)", s.label, wall_limit.as_secs(), used));
+                    break childp.wait().expect("wait after kill");
+                }
             }
             std::thread::sleep(std::time::Duration::from_millis(20));
         };
+        if let Some(msg) = stalled {
+            ctx.inconclusive(msg);
+            return;
+        }
         struct Out {
             status: std::process::ExitStatus,
             stderr: Vec<u8>,
@@ -511,7 +552,7 @@ fn run_children(ctx: &mut Ctx, s: &Subject) {
                         ("entry_point", J::s(inp.entry)),
                         ("mutation", J::s(inp.desc.clone())),
                         ("input_hex", J::s(hex_trunc(&inp.bytes, 160))),
-                        ("observed", J::s(format!("no return within {} s (child killed)", limit.as_secs()))),
+                        ("observed", J::s(format!("no return after {} s of CPU time on this input (child killed)", limit.as_secs()))),
                     ]),
                 );
             }
@@ -568,7 +609,7 @@ fn rerun_range(ctx: &mut Ctx, s: &Subject, from: usize, to: usize) {
     let _ = std::fs::remove_file(&report);
     let cmd = format!(
         "{}exec \"{}\" C06 --seed {} --tier {} --out \"{}\" --build {}",
-        if std::env::var("VH_SANITIZER").is_ok() { "" } else { "ulimit -v 6291456; " },
+        if std::env::var("VH_SANITIZER").is_ok() { "" } else { "ulimit -v 2097152; " },
         exe.display(),
         ctx.seed,
         if ctx.quick() { "quick" } else { "thorough" },
